@@ -22,13 +22,14 @@ const (
 )
 
 type c07Case struct {
-	Gen      string         `json:"gen"`             // how the input is produced
-	Bytes    model.HexBytes `json:"bytes,omitempty"` // explicit input (small cases)
-	Item     *model.Node    `json:"item,omitempty"`  // described item (long inputs), framed as a message
-	Depth    int            `json:"depth,omitempty"` // chain of 1-element lists around Core
-	Core     model.HexBytes `json:"core,omitempty"`  // innermost item bytes of a chain
-	Sib      model.HexBytes `json:"sib,omitempty"`   // one encoded leaf item that every level of the chain holds beside its nested list
-	SibPos   int            `json:"sib_pos,omitempty"` // 0 before the nested list, 1 after it, 2 both
+	Gen      string         `json:"gen"`                 // how the input is produced
+	Bytes    model.HexBytes `json:"bytes,omitempty"`     // explicit input (small cases)
+	Item     *model.Node    `json:"item,omitempty"`      // described item (long inputs), framed as a message
+	Depth    int            `json:"depth,omitempty"`     // chain of 1-element lists around Core
+	Core     model.HexBytes `json:"core,omitempty"`      // innermost item bytes of a chain
+	Sib      model.HexBytes `json:"sib,omitempty"`       // one encoded leaf item that every level of the chain holds beside its nested list
+	SibPos   int            `json:"sib_pos,omitempty"`   // 0 before the nested list, 1 after it, 2 both
+	SibItems int            `json:"sib_items,omitempty"` // number of items that Sib encodes (0 = one)
 	Truncate int            `json:"truncate,omitempty"`
 	Patch    bool           `json:"patch,omitempty"` // rewrite the outer length to match
 	// History: inputs decoded by the same worker process right before this one (the decoder must not carry
@@ -53,17 +54,21 @@ func (c c07Case) input() ([]byte, error) {
 	case c.Depth > 0 || c.Gen == "chain":
 		in = append(in, c07Header...)
 		var tail []byte
+		k := byte(c.SibItems)
+		if k == 0 {
+			k = 1
+		}
 		for i := 0; i < c.Depth; i++ {
 			switch {
 			case len(c.Sib) == 0:
 				in = append(in, 0x01, 0x01)
 			case c.SibPos == 0:
-				in = append(append(in, 0x01, 0x02), c.Sib...)
+				in = append(append(in, 0x01, 1+k), c.Sib...)
 			case c.SibPos == 1:
-				in = append(in, 0x01, 0x02)
+				in = append(in, 0x01, 1+k)
 				tail = append(tail, c.Sib...)
 			default:
-				in = append(append(in, 0x01, 0x03), c.Sib...)
+				in = append(append(in, 0x01, 1+2*k), c.Sib...)
 				tail = append(tail, c.Sib...)
 			}
 		}
@@ -271,6 +276,28 @@ func genC07(t *rapid.T) c07Case {
 				{0x41, 0x01, 0x61}, {0x01, 0x00}, {0xB1, 0x00}, {0x69, 0x02, 0xFF, 0xFE}}).Draw(t, "sibling")
 			if len(core) == 0 {
 				core = []byte{0x01, 0x00}
+			}
+			if rapid.IntRange(0, 2).Draw(t, "severalSiblings") == 2 {
+				// several siblings per level, possibly a small list of leaves among them; fewer levels so that the input stays small
+				leaves := [][]byte{{0x21, 0x00}, {0xA5, 0x01, 0x07}, {0x25, 0x01, 0x01}, {0x41, 0x00}, {0x01, 0x00}, {0x41, 0x02, 0x61, 0x62}, {0x71, 0x04, 0, 0, 0, 1}, {0x81, 0x08, 0, 0, 0, 0, 0, 0, 0, 0}}
+				n := rapid.IntRange(2, 4).Draw(t, "nSiblings")
+				sib = nil
+				for i := 0; i < n; i++ {
+					if rapid.IntRange(0, 3).Draw(t, "sibIsList") == 3 {
+						w := rapid.IntRange(1, 40).Draw(t, "sibListWidth")
+						leaf := rapid.SampledFrom(leaves).Draw(t, "sibListLeaf")
+						sib = append(sib, 0x01, byte(w))
+						for j := 0; j < w; j++ {
+							sib = append(sib, leaf...)
+						}
+					} else {
+						sib = append(sib, rapid.SampledFrom(leaves).Draw(t, "sibLeaf")...)
+					}
+				}
+				if d > 1+c07DepthCap*8/len(sib) {
+					d = 1 + c07DepthCap*8/len(sib)
+				}
+				return c07Case{Gen: "chain-with-leaves", Depth: d, Core: core, Sib: sib, SibItems: n, SibPos: rapid.IntRange(0, 2).Draw(t, "sibPos")}
 			}
 			return c07Case{Gen: "chain-with-leaves", Depth: d, Core: core, Sib: sib, SibPos: rapid.IntRange(0, 2).Draw(t, "sibPos")}
 		}
